@@ -170,12 +170,12 @@ theorem probe_times (s now : Nat) :
 
 /-- `name_change` in full: only the text before the first `.` matters, everything from that
     dot on is kept.  If that text ends in ` (N)` with `N` a `u32` literal (optional `+`,
-    decimal digits) the result has ` (N+1)` there, otherwise ` (2)` is appended.  The call
-    fails in exactly one case: `N = 4294967295` (`number + 1` overflows; a panic in builds
-    with overflow checks).  It never returns an error. -/
+    decimal digits) below 4294967295 the result has ` (N+1)` there, otherwise ` (2)` is
+    appended (also for `N = 4294967295`: repair of D14, `number + 1` used to overflow there).
+    It never fails. -/
 theorem name_change_spec (s : BList) :
     (∀ base num n, firstPart s = base ++ SP_LPAREN ++ num ++ [RPAREN] → parseU32 num = some n →
-      nameChange s = if n = U32_MAX then .panic
+      nameChange s = if n = U32_MAX then .ok (firstPart s ++ PAREN2 ++ afterFirst s)
         else .ok (base ++ SP_LPAREN ++ decimal (n + 1) ++ [RPAREN] ++ afterFirst s)) ∧
     ((¬ ∃ base num n, firstPart s = base ++ SP_LPAREN ++ num ++ [RPAREN] ∧ parseU32 num = some n) →
       nameChange s = .ok (firstPart s ++ PAREN2 ++ afterFirst s)) := by
@@ -185,9 +185,10 @@ theorem name_change_spec (s : BList) :
       unfold parseU32 at hp
       repeat' split at hp
       all_goals first | (cases hp; done) | (simp at hp; omega)
-    rw [nameChange_eq, hf, bumpParen_suffix base num n hp]
+    rw [nameChange_eq]
+    conv => lhs; rw [hf, bumpParen_suffix base num n hp]
     by_cases h : n = U32_MAX
-    · simp [h]
+    · simp [h, hf]
     · have : ¬ n + 1 > U32_MAX := by omega
       simp [h, this]
   · intro hno
@@ -199,7 +200,7 @@ theorem name_change_spec (s : BList) :
 /-- `hostname_change` in full: as `name_change_spec` with `-N` for ` (N)` and `-2` for ` (2)`. -/
 theorem hostname_change_spec (s : BList) :
     (∀ base num n, firstPart s = base ++ [HYPHEN] ++ num → parseU32 num = some n →
-      hostnameChange s = if n = U32_MAX then .panic
+      hostnameChange s = if n = U32_MAX then .ok (firstPart s ++ HYPHEN2 ++ afterFirst s)
         else .ok (base ++ [HYPHEN] ++ decimal (n + 1) ++ afterFirst s)) ∧
     ((¬ ∃ base num n, firstPart s = base ++ [HYPHEN] ++ num ∧ parseU32 num = some n) →
       hostnameChange s = .ok (firstPart s ++ HYPHEN2 ++ afterFirst s)) := by
@@ -209,9 +210,10 @@ theorem hostname_change_spec (s : BList) :
       unfold parseU32 at hp
       repeat' split at hp
       all_goals first | (cases hp; done) | (simp at hp; omega)
-    rw [hostnameChange_eq, hf, bumpHyphen_suffix base num n hp]
+    rw [hostnameChange_eq]
+    conv => lhs; rw [hf, bumpHyphen_suffix base num n hp]
     by_cases h : n = U32_MAX
-    · simp [h]
+    · simp [h, hf]
     · have : ¬ n + 1 > U32_MAX := by omega
       simp [h, this]
   · intro hno
@@ -220,36 +222,19 @@ theorem hostname_change_spec (s : BList) :
     · rw [hc]
     · exact absurd ⟨base, num, n, h1, h2⟩ hno
 
-/-- The renaming functions never return an error, and they panic only on the overflow. -/
-theorem rename_panics_only_on_overflow (s : BList) :
-    nameChange s ≠ .err ∧ hostnameChange s ≠ .err ∧
-    (nameChange s = .panic → ∃ base num, firstPart s = base ++ SP_LPAREN ++ num ++ [RPAREN] ∧
-      parseU32 num = some U32_MAX) ∧
-    (hostnameChange s = .panic → ∃ base num, firstPart s = base ++ [HYPHEN] ++ num ∧
-      parseU32 num = some U32_MAX) := by
+/-- The renaming functions are total: for every input text they return a name - no error and
+    no panic (used by C15). -/
+theorem rename_total (s : BList) :
+    (∃ s', nameChange s = .ok s') ∧ (∃ s', hostnameChange s = .ok s') := by
   have hn := name_change_spec s
   have hh := hostname_change_spec s
-  refine ⟨?_, ?_, ?_, ?_⟩
+  constructor
   · rcases bumpParen_cases (firstPart s) with hc | ⟨base, num, n, h1, h2⟩
-    · rw [nameChange_eq, hc]; simp
-    · rw [hn.1 base num n h1 h2]; split <;> simp
+    · rw [nameChange_eq, hc]; exact ⟨_, rfl⟩
+    · rw [hn.1 base num n h1 h2]; split <;> exact ⟨_, rfl⟩
   · rcases bumpHyphen_cases (firstPart s) with hc | ⟨base, num, n, h1, h2⟩
-    · rw [hostnameChange_eq, hc]; simp
-    · rw [hh.1 base num n h1 h2]; split <;> simp
-  · intro hp
-    rcases bumpParen_cases (firstPart s) with hc | ⟨base, num, n, h1, h2⟩
-    · rw [nameChange_eq, hc] at hp; simp at hp
-    · rw [hn.1 base num n h1 h2] at hp
-      split at hp
-      · rename_i e; subst e; exact ⟨base, num, h1, h2⟩
-      · cases hp
-  · intro hp
-    rcases bumpHyphen_cases (firstPart s) with hc | ⟨base, num, n, h1, h2⟩
-    · rw [hostnameChange_eq, hc] at hp; simp at hp
-    · rw [hh.1 base num n h1 h2] at hp
-      split at hp
-      · rename_i e; subst e; exact ⟨base, num, h1, h2⟩
-      · cases hp
+    · rw [hostnameChange_eq, hc]; exact ⟨_, rfl⟩
+    · rw [hh.1 base num n h1 h2]; split <;> exact ⟨_, rfl⟩
 
 /-- Counting up: renaming `x` (no numeric suffix) gives `x (2)`; renaming `x (n)` - as
     printed by a previous renaming - gives `x (n+1)`; so repeated conflicts give
@@ -336,10 +321,11 @@ theorem D13_suffix_inside_escaped_label :
     wireLabels (str "a\\ (2).b._x._udp.local.") = [str "a\\ (2)", str "b", str "_x", str "_udp", str "local"] := by
   decide
 
-/-- D14: a suffix of 4294967295 makes `number + 1` overflow (panic with overflow checks). -/
-theorem D14_rename_panics :
-    nameChange (str "foo (4294967295)._x._udp.local.") = .panic ∧
-    hostnameChange (str "foo-4294967295.local.") = .panic := by
+/-- D14 (repaired): at a suffix of 4294967295, where `number + 1` used to overflow (a panic
+    with overflow checks, ` (0)` without), a fresh suffix is appended. -/
+theorem D14_rename_at_u32_max :
+    nameChange (str "foo (4294967295)._x._udp.local.") = .ok (str "foo (4294967295) (2)._x._udp.local.") ∧
+    hostnameChange (str "foo-4294967295.local.") = .ok (str "foo-4294967295-2.local.") := by
   decide
 
 /-- D15: a first label of 63 bytes becomes one of 67 bytes, which `write_utf8` refuses
@@ -365,8 +351,7 @@ theorem rename_keeps_name_encodable_full_is_false : ¬ rename_keeps_name_encodab
     backslash (no escapes in the first label), then on the wire only the first label changes;
     and if moreover that label has at most 59 bytes (host: 61) and the name at most 251 bytes
     (host: 253), an encodable name stays encodable.  Missing for the full statement: escaped
-    first labels (D13), first labels of 60..63 bytes (D15), names of 252..255 bytes (D15b),
-    and the counter 4294967295 (D14). -/
+    first labels (D13), first labels of 60..63 bytes (D15), names of 252..255 bytes (D15b). -/
 theorem rename_keeps_name_encodable_partial (s s' : BList) (host : Bool)
     (hne : firstPart s ≠ []) (hb : BACKSLASH ∉ firstPart s)
     (h : (if host then hostnameChange s else nameChange s) = .ok s') :
